@@ -108,7 +108,7 @@ Definition src2_decrypt (crypto_decrypt : pyval -> pyval -> pyval) (v_self : pyv
    | BErr => PErr
    end)).
 
-(* saml2/response.py:AuthnResponse.find_encrypt_data_assertion, lines 882-890 *)
+(* saml2/response.py:AuthnResponse.find_encrypt_data_assertion, lines 889-897 *)
 Definition src2_find_encrypt_data_assertion (v_self : pyval) (v_enc_assertions : pyval) : pyval :=
   (py_bind (p2_iter_check v_enc_assertions) (fun it_1 =>
    (match pyfor2 (py_iter2 it_1) [] (fun st_2 x_3 => match st_2 with [] =>
@@ -126,7 +126,7 @@ Definition src2_find_encrypt_data_assertion (v_self : pyval) (v_enc_assertions :
    | ExcS n_5 st_2 => match st_2 with [] => (PExc n_5) | _ => PErr end
    end))).
 
-(* saml2/response.py:AuthnResponse.find_encrypt_data, lines 906-924 *)
+(* saml2/response.py:AuthnResponse.find_encrypt_data, lines 913-931 *)
 Definition src2_find_encrypt_data (v_self : pyval) (v_resp : pyval) : pyval :=
   let v_res := PErr in
   (let k_16 := fun v_res =>
@@ -174,7 +174,7 @@ Definition src2_find_encrypt_data (v_self : pyval) (v_resp : pyval) : pyval :=
    | BErr => PErr
    end)).
 
-(* saml2/response.py:AuthnResponse.decrypt_assertions, lines 856-880 *)
+(* saml2/response.py:AuthnResponse.decrypt_assertions, lines 863-887 *)
 Definition src2_decrypt_assertions (ee2e : pyval -> pyval) (check_sig : pyval -> pyval -> pyval -> pyval -> pyval) (class_name_ext : pyval -> pyval) (v_self : pyval) (v_encrypted_assertions : pyval) (v_decr_txt : pyval) (v_issuer : pyval) (v_verified : pyval) : pyval :=
   let v_res := PErr in
   let v_assertions := PErr in
@@ -218,7 +218,7 @@ Definition src2_decrypt_assertions (ee2e : pyval -> pyval) (check_sig : pyval ->
    | ExcS n_6 st_3 => match st_3 with [v_assertions; v_res] => (PExc n_6) | _ => PErr end
    end)))).
 
-(* saml2/response.py:AuthnResponse._assertion, lines 794-854 *)
+(* saml2/response.py:AuthnResponse._assertion, lines 801-861 *)
 Definition src2_assertion (check_sig3 : pyval -> pyval -> pyval -> pyval) (class_name_ext : pyval -> pyval) (issuer_ext : pyval -> pyval) (authn_statement_ok_ext : pyval -> pyval) (condition_ok_ext : pyval -> pyval) (get_subject_ext : pyval -> pyval) (v_self : pyval) (v_assertion : pyval) (v_verified : pyval) : pyval :=
   let v_exc := PErr in
   let v__resp_issuer := PErr in
